@@ -232,6 +232,17 @@ Proof.
         rewrite Hr. apply vd_val.
 Qed.
 
+(** the sign-keeping real root of a non-zero number is non-zero (the specification-side
+    counterpart of [K_nth_root_val]) *)
+Lemma K_root_nonzero n x : x <> 0 -> root n x <> 0.
+Proof.
+  intro Hx. unfold root.
+  destruct (Rlt_dec 0 x) as [Hp|Hp].
+  - pose proof (exp_pos (/ IZR (Zpos n) * ln x)) as H. unfold Rpower. lra.
+  - destruct (Rlt_dec x 0) as [Hn|Hn]; [|lra].
+    pose proof (exp_pos (/ IZR (Zpos n) * ln (- x))) as H. unfold Rpower. lra.
+Qed.
+
 (** ** [same_kind] *)
 Lemma sk_val A B (a : A) (b : B) : same_kind (Val a) (Val b).
 Proof. split; reflexivity. Qed.
@@ -355,6 +366,34 @@ Lemma K_sine_vd x : vd (mf_sine RInst x).
 Proof. apply vd_val. Qed.
 Lemma K_cosine_vd x : vd (mf_cosine RInst x).
 Proof. apply vd_val. Qed.
+
+(** ** Generic facts for "never a foreign Python exception" *)
+Lemma np_bind A B (o : outcome A) (f : A -> outcome B) k :
+  o <> PyErr k -> (forall a, o = Val a -> f a <> PyErr k) -> bind o f <> PyErr k.
+Proof.
+  destruct o as [a| | |k0]; cbn [bind]; intros H1 H2; auto; try discriminate.
+  intro E. apply H1. congruence.
+Qed.
+
+Lemma np_sequence X A (f : X -> outcome A) l k :
+  Forall (fun x => f x <> PyErr k) l -> sequence (map f l) <> PyErr k.
+Proof.
+  induction 1 as [|x l Hx Hl IH]; cbn [map sequence]; [discriminate|].
+  apply np_bind; [assumption|intros a _]. apply np_bind; [assumption|intros; discriminate].
+Qed.
+
+Lemma sk_bind_val_r A B B' (o1 : outcome A) (o2 : outcome B) (g : B -> B') :
+  same_kind o1 o2 -> same_kind o1 (y <- o2 ;; Val (g y)).
+Proof. destruct o2; cbn [bind]; auto. Qed.
+
+Lemma sequence_val_inv X B (g : X -> outcome B) l :
+  forall vs, sequence (map g l) = Val vs -> Forall (fun x => exists b, g x = Val b) l.
+Proof.
+  induction l as [|x l IH]; intros vs H; constructor; cbn [map sequence] in H.
+  - destruct (g x); try discriminate. eauto.
+  - destruct (g x); try discriminate. cbn [bind] in H.
+    destruct (sequence (map g l)) eqn:E; try discriminate. eapply IH; reflexivity.
+Qed.
 
 Section K.
   Hypothesis Htotal : C02_total.
@@ -565,7 +604,314 @@ Section K.
     intros p e v Hs. split; [apply Hnomiss; assumption|]. split; [apply fwd_nm; assumption|].
     intros m acc. apply rev_nm; assumption.
   Qed.
+
+  (** *** No foreign Python exception under [wf], at ANY point (C17) *)
+  Ltac np :=
+    repeat match goal with
+    | |- bind _ _ <> PyErr _ => apply np_bind; [ | intros ? ? ]
+    | |- Val _ <> PyErr _ => discriminate
+    | |- DomErr <> PyErr _ => discriminate
+    | |- (if ?c then _ else _) <> PyErr _ => destruct c
+    | |- evalR _ _ <> PyErr _ => apply Hnopy; assumption
+    | |- fwdR _ _ _ <> PyErr _ => match goal with IH : _ |- _ => apply IH; assumption end
+    | |- rev RInst _ _ _ _ <> PyErr _ => match goal with IH : _ |- _ => apply IH; assumption end
+    | |- mf_divide RInst _ _ <> PyErr _ => apply vd_not_pyerr, K_divide_vd
+    | |- mf_power RInst _ _ <> PyErr _ => apply vd_not_pyerr, K_power_vd
+    | |- mf_nth_power RInst _ _ <> PyErr _ => apply vd_not_pyerr, K_nth_power_vd
+    | |- mf_sine RInst _ <> PyErr _ => apply vd_not_pyerr, K_sine_vd
+    | |- mf_cosine RInst _ <> PyErr _ => apply vd_not_pyerr, K_cosine_vd
+    | |- mf_logarithm RInst _ _ <> PyErr _ => apply vd_not_pyerr, K_logarithm_vd
+    | |- unary_verify RInst _ _ <> PyErr _ => apply vd_not_pyerr, unary_verify_vd
+    | |- verify_divide RInst _ _ <> PyErr _ => apply vd_not_pyerr, verify_divide_vd
+    | |- verify_power RInst _ _ <> PyErr _ => apply vd_not_pyerr, verify_power_vd
+    | |- unary_formula RInst _ _ _ <> PyErr _ => cbn [unary_formula]
+    | |- divide_formula_left RInst _ _ _ _ <> PyErr _ => unfold divide_formula_left
+    | |- divide_formula_right RInst _ _ _ _ <> PyErr _ => unfold divide_formula_right
+    | |- power_formula_left RInst _ _ _ _ <> PyErr _ => unfold power_formula_left
+    | |- power_formula_right RInst _ _ _ _ <> PyErr _ => unfold power_formula_right
+    | |- power_shortcut RInst _ _ <> PyErr _ => unfold power_shortcut
+    | |- match ?n with _ => _ end <> PyErr _ => destruct n
+    end.
+
+  (* the base of a Power node that passed its own check is positive *)
+  Ltac power_base :=
+    match goal with
+    | H1 : evalR ?p ?a = Val ?x, H2 : evalR ?p ?a = Val ?y, H3 : verify_power RInst ?x ?z = Val _
+      |- 0 < ?y =>
+        rewrite H1 in H2; injection H2 as <-;
+        let H := fresh in
+        destruct (verify_power_cases x z) as [[_ H]|H]; [exact H | rewrite H in H3; discriminate]
+    end.
+
+  Lemma fwd_np : forall e p v k, wfR e -> fwdR v p e <> PyErr k.
+  Proof.
+    induction e as [c|x|l IH|l IH|a b IHa IHb|a b IHa IHb|a b IHa IHb|a IHa|a IHa|a IHa|a IHa
+                   |a n IHa|a n IHa|a b IHa|a b IHa] using expr_ind'; intros p v k Hwf;
+      try (pose proof Hwf as [Hwa Hwb]);
+      try (cbn [fwd]; np; fail).
+    - (* Add *)
+      cbn [fwd]. apply wf_list in Hwf. np. apply np_sequence.
+      rewrite Forall_forall in *. intros e' He'. apply IH; auto.
+    - (* Mul *)
+      cbn [fwd]. apply wf_list in Hwf. unfold eval_list. np.
+      + apply np_sequence. rewrite Forall_forall in *. intros e' He'. apply Hnopy; auto.
+      + apply np_sequence. rewrite Forall_forall in *. intros e' He'. apply IH; auto.
+    - (* Power *)
+      cbn [fwd]. np. power_base.
+    - (* Exp *)
+      simpl in Hwa. rbool. cbn [fwd]. np. assumption.
+    - (* Log *)
+      destruct Hwb as [Hb1 Hwa']. simpl in Hwa. rbool. cbn [fwd]. np. assumption.
+  Qed.
+
+  Lemma rev_np : forall e p m acc k, wfR e -> rev RInst p e m acc <> PyErr k.
+  Proof.
+    induction e as [c|x|l IH|l IH|a b IHa IHb|a b IHa IHb|a b IHa IHb|a IHa|a IHa|a IHa|a IHa
+                   |a n IHa|a n IHa|a b IHa|a b IHa] using expr_ind'; intros p m acc k Hwf;
+      try (pose proof Hwf as [Hwa Hwb]);
+      try (cbn [rev]; np; fail).
+    - (* Add *)
+      cbn [rev]. apply wf_list in Hwf.
+      assert (H : Forall (fun x => forall m acc, rev RInst p x m acc <> PyErr k) l).
+      { rewrite Forall_forall in *. intros e' He' m' acc'. apply IH; auto. }
+      clear IH Hwf. revert acc. induction H as [|x r Hx Hr IHr]; intro acc; [discriminate|].
+      apply np_bind; [apply Hx| intros acc' _; apply IHr].
+    - (* Mul *)
+      cbn [rev]. apply wf_list in Hwf. unfold eval_list. apply np_bind.
+      { apply np_sequence. rewrite Forall_forall in *. intros e' He'. apply Hnopy; auto. }
+      intros vs _.
+      assert (H : Forall (fun x => forall m acc, rev RInst p x m acc <> PyErr k) l).
+      { rewrite Forall_forall in *. intros e' He' m' acc'. apply IH; auto. }
+      clear IH Hwf. revert acc. generalize O.
+      induction H as [|x r Hx Hr IHr]; intros i acc; [discriminate|].
+      apply np_bind; [apply Hx| intros acc' _; apply IHr].
+    - (* Power *)
+      cbn [rev]. np. power_base.
+    - (* Exp *)
+      simpl in Hwa. rbool. cbn [rev]. np. assumption.
+    - (* Log *)
+      destruct Hwb as [Hb1 Hwa']. simpl in Hwa. rbool. cbn [rev]. np. assumption.
+  Qed.
+
+  Theorem no_pyerr : C17_no_pyerr.
+  Proof.
+    intros p e v k Hw. split; [apply Hnopy; assumption|]. split; [apply fwd_np; assumption|].
+    intros m acc. apply rev_np; assumption.
+  Qed.
+
+  (** *** Reverse mode *)
+  Ltac rev_fin IH' :=
+    match goal with
+    | |- same_kind (rev RInst _ _ ?m' ?acc') _ => destruct (IH' m' acc') as [? ->]; apply sk_val
+    end.
+
+  Lemma rev_sk : forall e p m acc,
+      wfR e -> supplies p e -> same_kind (rev RInst p e m acc) (evalR p e).
+  Proof.
+    induction e as [c|x|l IH|l IH|a b IHa IHb|a b IHa IHb|a b IHa IHb|a IHa|a IHa|a IHa|a IHa
+                   |a n IHa|a n IHa|a b IHa|a b IHa] using expr_ind'; intros p m acc Hwf Hs.
+    - (* Const *) apply sk_val.
+    - (* Var *) cbn [rev eval]. unfold coordinate.
+      specialize (Hs x (or_introl eq_refl)). destruct (lookup x p); [|congruence]. apply sk_val.
+    - (* Add *)
+      cbn [rev eval]. apply wf_list in Hwf. apply supplies_list in Hs.
+      apply sk_bind_val_r.
+      assert (H : Forall (fun x => (forall m acc, same_kind (rev RInst p x m acc) (evalR p x))
+                                   /\ vd (evalR p x)) l).
+      { rewrite Forall_forall in *. intros e' He'. split; [intros; apply IH; auto|apply Hvd; auto]. }
+      clear IH Hwf Hs. revert acc. induction H as [|x r [Hx Vx] Hr IHr]; intro acc.
+      + apply sk_val.
+      + cbn [map sequence].
+        destruct (sk_cases _ _ _ _ (Hx m acc) Vx) as [[acc' [y [-> ->]]]|[-> ->]]; cbn [bind];
+          [|apply sk_dom].
+        apply sk_bind_val_r. apply IHr.
+    - (* Mul *)
+      cbn [rev eval]. unfold eval_list. apply wf_list in Hwf. apply supplies_list in Hs.
+      assert (VS : Forall (fun a => vd (evalR p a)) l)
+        by (rewrite Forall_forall in *; intros e' He'; apply Hvd; auto).
+      destruct (vd_sequence _ _ _ _ VS) as [[vs Evs]|Evs]; rewrite Evs; cbn [bind]; [|apply sk_dom].
+      apply sequence_val_inv in Evs.
+      assert (H : Forall (fun x => forall m acc, exists acc', rev RInst p x m acc = Val acc') l).
+      { rewrite Forall_forall in *. intros e' He' m' acc'. destruct (Evs e' He') as [y Ey].
+        eapply sk_inv_val. rewrite <- Ey. apply IH; auto. }
+      clear IH Hwf Hs VS Evs. revert acc. generalize O.
+      induction H as [|x r Hx Hr IHr]; intros i acc.
+      + apply sk_val.
+      + destruct (Hx (mf_multiply RInst (m :: remove_nth i vs)) acc) as [acc' ->]. cbn [bind].
+        apply IHr.
+    - (* Minus *)
+      destruct Hwf as [Hwa Hwb]. apply supplies_app in Hs. destruct Hs as [Hsa Hsb].
+      cbn [rev eval].
+      destruct (sk_cases _ _ _ _ (IHa p m acc Hwa Hsa) (Hvd p a Hwa Hsa)) as [[acc1 [x [-> ->]]]|[-> ->]];
+        cbn [bind]; [|apply sk_dom].
+      apply sk_bind_val_r. apply IHb; assumption.
+    - (* Divide *)
+      destruct Hwf as [Hwa Hwb]. apply supplies_app in Hs. destruct Hs as [Hsa Hsb].
+      cbn [rev eval]. unfold divide_formula_left, divide_formula_right.
+      destruct (Hvd p a Hwa Hsa) as [[x Ea]|Ea]; rewrite Ea; cbn [bind]; [|apply sk_dom].
+      destruct (Hvd p b Hwb Hsb) as [[y Eb]|Eb]; rewrite Eb; cbn [bind]; [|apply sk_dom].
+      destruct (verify_divide_cases x y) as [[-> Hy]| ->]; cbn [bind]; [|apply sk_dom].
+      rewrite K_nth_power; cbn [bind].
+      rewrite !K_divide_val by (try apply pow_nonzero; assumption). cbn [bind].
+      match goal with |- same_kind (acc1 <- rev RInst p a ?ml acc ;; _) _ =>
+        pose proof (IHa p ml acc Hwa Hsa) as Ka end.
+      rewrite Ea in Ka. apply sk_inv_val in Ka. destruct Ka as [acc1 ->]. cbn [bind].
+      match goal with |- same_kind (rev RInst p b ?mr acc1) _ =>
+        pose proof (IHb p mr acc1 Hwb Hsb) as Kb end.
+      rewrite Eb in Kb. apply sk_inv_val in Kb. destruct Kb as [acc2 ->]. apply sk_val.
+    - (* Power *)
+      pose proof Hwf as [Hwa Hwb]. pose proof Hs as Hs'. apply supplies_app in Hs'.
+      destruct Hs' as [Hsa Hsb].
+      cbn [rev].
+      destruct (Hvd p (Power a b) Hwf Hs) as [[s Es]| Es]; rewrite Es; cbn [bind]; [|apply sk_dom].
+      pose proof Es as Es'. cbn [eval] in Es'.
+      destruct (Hvd p a Hwa Hsa) as [[x Ea]|Ea]; rewrite Ea in Es'; cbn [bind] in Es'; [|discriminate].
+      destruct (Hvd p b Hwb Hsb) as [[y Eb]|Eb]; rewrite Eb in Es'; cbn [bind] in Es'; [|discriminate].
+      destruct (verify_power_cases x y) as [[Ev Hx]| Ev]; rewrite Ev in Es'; cbn [bind] in Es';
+        [|discriminate].
+      assert (Hsc : exists sc, power_shortcut RInst p a = Val sc).
+      { unfold power_shortcut. destruct (var_free a); [|eauto]. rewrite Ea. cbn [bind]. eauto. }
+      destruct Hsc as [sc ->]. cbn [bind]. destruct sc; [apply sk_val|].
+      unfold power_formula_left, power_formula_right.
+      repeat (first [rewrite Ea | rewrite Eb | rewrite Es | rewrite Ev]; cbn [bind]).
+      rewrite K_power_val by assumption. cbn [bind].
+      rewrite K_logarithm_e by assumption. cbn [bind].
+      match goal with |- same_kind (acc1 <- rev RInst p a ?ml acc ;; _) _ =>
+        pose proof (IHa p ml acc Hwa Hsa) as Ka end.
+      rewrite Ea in Ka. apply sk_inv_val in Ka. destruct Ka as [acc1 ->]. cbn [bind].
+      match goal with |- same_kind (rev RInst p b ?mr acc1) _ =>
+        pose proof (IHb p mr acc1 Hwb Hsb) as Kb end.
+      rewrite Eb in Kb. apply sk_inv_val in Kb. destruct Kb as [acc2 ->]. apply sk_val.
+    - (* Neg *)
+      cbn [rev eval unary_verify unary_formula].
+      destruct (Hvd p a Hwf Hs) as [[x Ea]|Ea]; rewrite Ea; cbn [bind]; [|apply sk_dom].
+      assert (IH' : forall m' acc', exists acc'', rev RInst p a m' acc' = Val acc'').
+      { intros m' acc'. pose proof (IHa p m' acc' Hwf Hs) as K. rewrite Ea in K.
+        exact (sk_inv_val _ _ _ _ K). }
+      rev_fin IH'.
+    - (* Recip *)
+      cbn [rev eval unary_verify unary_formula].
+      destruct (Hvd p a Hwf Hs) as [[x Ea]|Ea]; rewrite Ea; cbn [bind]; [|apply sk_dom].
+      assert (IH' : forall m' acc', exists acc'', rev RInst p a m' acc' = Val acc'').
+      { intros m' acc'. pose proof (IHa p m' acc' Hwf Hs) as K. rewrite Ea in K.
+        exact (sk_inv_val _ _ _ _ K). }
+      destruct (verify_reciprocal_cases x) as [[-> Hx]| ->]; cbn [bind]; [|apply sk_dom].
+      rewrite K_nth_power; cbn [bind]. rewrite K_reciprocal_val by assumption.
+      rewrite K_divide_val by (apply pow_nonzero; assumption). cbn [bind]. rev_fin IH'.
+    - (* Sin *)
+      cbn [rev eval unary_verify unary_formula].
+      destruct (Hvd p a Hwf Hs) as [[x Ea]|Ea]; rewrite Ea; cbn [bind]; [|apply sk_dom].
+      assert (IH' : forall m' acc', exists acc'', rev RInst p a m' acc' = Val acc'').
+      { intros m' acc'. pose proof (IHa p m' acc' Hwf Hs) as K. rewrite Ea in K.
+        exact (sk_inv_val _ _ _ _ K). }
+      rewrite ?K_cosine, ?K_sine; cbn [bind]. rev_fin IH'.
+    - (* Cos *)
+      cbn [rev eval unary_verify unary_formula].
+      destruct (Hvd p a Hwf Hs) as [[x Ea]|Ea]; rewrite Ea; cbn [bind]; [|apply sk_dom].
+      assert (IH' : forall m' acc', exists acc'', rev RInst p a m' acc' = Val acc'').
+      { intros m' acc'. pose proof (IHa p m' acc' Hwf Hs) as K. rewrite Ea in K.
+        exact (sk_inv_val _ _ _ _ K). }
+      rewrite ?K_cosine, ?K_sine; cbn [bind]. rev_fin IH'.
+    - (* NthPow *)
+      cbn [rev eval unary_verify unary_formula].
+      destruct (Hvd p a Hwf Hs) as [[x Ea]|Ea]; rewrite Ea; cbn [bind]; [|apply sk_dom].
+      assert (IH' : forall m' acc', exists acc'', rev RInst p a m' acc' = Val acc'').
+      { intros m' acc'. pose proof (IHa p m' acc' Hwf Hs) as K. rewrite Ea in K.
+        exact (sk_inv_val _ _ _ _ K). }
+      rewrite !K_nth_power. destruct n; cbn [bind]; rev_fin IH'.
+    - (* NthRoot *)
+      cbn [rev]. cbn [unary_verify unary_formula].
+      pose proof (Hvd p (NthRoot a n) Hwf Hs) as Vs. revert Vs. cbn [eval].
+      destruct (Hvd p a Hwf Hs) as [[x Ea]|Ea]; rewrite Ea; cbn [bind]; [|intros _; apply sk_dom].
+      assert (IH' : forall m' acc', exists acc'', rev RInst p a m' acc' = Val acc'').
+      { intros m' acc'. pose proof (IHa p m' acc' Hwf Hs) as K. rewrite Ea in K.
+        exact (sk_inv_val _ _ _ _ K). }
+      destruct (K_verify_nth_root_cases x n) as [Ev|Ev]; rewrite Ev; cbn [bind];
+        [|intros _; apply sk_dom].
+      destruct (K_nth_root_val x n Ev) as [r [Er Hr]]. rewrite Er. intros _.
+      destruct n as [q|q|]; cbn [bind]; try (rev_fin IH').
+      + rewrite K_nth_power. cbn [bind].
+        rewrite K_divide_val; [cbn [bind]; rev_fin IH'|].
+        apply K_multiply_nz. repeat constructor.
+        * simpl. apply IZR_neq. discriminate.
+        * apply pow_nonzero. apply Hr. discriminate.
+      + rewrite K_nth_power. cbn [bind].
+        rewrite K_divide_val; [cbn [bind]; rev_fin IH'|].
+        apply K_multiply_nz. repeat constructor.
+        * simpl. apply IZR_neq. discriminate.
+        * apply pow_nonzero. apply Hr. discriminate.
+    - (* Exp *)
+      destruct Hwf as [Hb Hwa]. simpl in Hb. rbool.
+      cbn [rev]. cbn [unary_verify unary_formula]. cbn [eval].
+      destruct (Hvd p a Hwa Hs) as [[x Ea]|Ea]; rewrite Ea; cbn [bind]; [|apply sk_dom].
+      assert (IH' : forall m' acc', exists acc'', rev RInst p a m' acc' = Val acc'').
+      { intros m' acc'. pose proof (IHa p m' acc' Hwa Hs) as K. rewrite Ea in K.
+        exact (sk_inv_val _ _ _ _ K). }
+      rewrite K_exponential_val by assumption. cbn [bind].
+      destruct (neqb RInst b (n1 RInst)); cbn [bind]; [rev_fin IH'|].
+      destruct (neqb RInst b (n_e RInst)); cbn [bind]; [rev_fin IH'|].
+      change (n_e RInst) with (exp 1). rewrite K_logarithm_e by assumption. cbn [bind]. rev_fin IH'.
+    - (* Log *)
+      destruct Hwf as [Hb [Hb1 Hwa]]. simpl in Hb, Hb1. rbool.
+      cbn [rev]. cbn [unary_verify unary_formula]. cbn [eval].
+      destruct (Hvd p a Hwa Hs) as [[x Ea]|Ea]; rewrite Ea; cbn [bind]; [|apply sk_dom].
+      assert (IH' : forall m' acc', exists acc'', rev RInst p a m' acc' = Val acc'').
+      { intros m' acc'. pose proof (IHa p m' acc' Hwa Hs) as K. rewrite Ea in K.
+        exact (sk_inv_val _ _ _ _ K). }
+      destruct (verify_logarithm_cases x) as [[-> Hx]| ->]; cbn [bind]; [|apply sk_dom].
+      rewrite (K_logarithm_val x b) by assumption.
+      destruct (neqb RInst b (n_e RInst)).
+      + rewrite K_divide_val by lra. cbn [bind]. rev_fin IH'.
+      + change (n_e RInst) with (exp 1). rewrite K_logarithm_e by assumption. cbn [bind].
+        rewrite K_divide_val; [cbn [bind]; rev_fin IH'|].
+        apply K_multiply_nz. repeat constructor; [apply K_ln_nonzero; assumption|lra].
+  Qed.
+
+  Theorem rev_same_kind : C07_rev.
+  Proof.
+    intros p e enum Hw Hs. unfold numeric_partials.
+    pose proof (rev_sk e p (n1 RInst) [] Hw Hs) as K.
+    destruct (sk_cases _ _ _ _ K (Hvd p e Hw Hs)) as [[acc [x [-> ->]]]|[-> ->]]; cbn [bind];
+      [apply sk_val|apply sk_dom].
+  Qed.
 End K.
 
+(** ** Non-vacuity: the premises [wfR e], [supplies p e] hold on a non-trivial tree, at a point
+    inside the domain and at a point outside of it (division by zero below the logarithm). *)
+Definition ex_tree : expr R :=
+  Log (Divide (Var 2%positive)
+              (Add [Var 2%positive; Power (Const 2) (Var 3%positive);
+                    NthRoot (Mul [Var 3%positive; Neg (Var 2%positive)]) 3]))
+      10.
+
+Example ex_tree_wf : wfR ex_tree.
+Proof.
+  simpl. repeat split; [apply Rltb_true; lra | apply Reqb_false; lra].
+Qed.
+
+Example ex_tree_supplies x y : supplies [(2%positive, x); (3%positive, y)] ex_tree.
+Proof.
+  intros z Hz. simpl in Hz.
+  repeat (destruct Hz as [<-|Hz]; [cbn; discriminate|]). contradiction.
+Qed.
+
+(* so, given the evaluation facts, the four theorems apply to it at every such point *)
+Example ex_tree_kinds (Ht : C02_total) x y v :
+  same_kind (fwdR v [(2%positive, x); (3%positive, y)] ex_tree)
+            (evalR [(2%positive, x); (3%positive, y)] ex_tree)
+  /\ same_kind (numeric_partials RInst [(2%positive, x); (3%positive, y)] ex_tree [2%positive; 3%positive])
+               (evalR [(2%positive, x); (3%positive, y)] ex_tree).
+Proof.
+  split.
+  - apply (fwd_same_kind Ht); [apply ex_tree_wf | apply ex_tree_supplies].
+  - apply (rev_same_kind Ht); [apply ex_tree_wf | apply ex_tree_supplies].
+Qed.
+
+Check fwd_same_kind.
+Check rev_same_kind.
+Check no_missing.
+Check no_pyerr.
 Print Assumptions fwd_same_kind.
+Print Assumptions rev_same_kind.
 Print Assumptions no_missing.
+Print Assumptions no_pyerr.
